@@ -182,6 +182,14 @@ def check_from_matrix(ctx, chk):
                                   show(want, 200) + " on every path (row and column labels of the frame as given)", ctx.where(AFM))
                     continue
                 rets = rets[:1]
+            if kind == "array" and len(rets) > 1 and all(isinstance(o.value, Tup) and not o.unmodelled for o in rets):
+                expk = K if kv is K else App("list", (App("range", (App("getitem", (App("shape", (mx,)), Const(-1))),)),))
+                bad = [o for o in rets if not (same(o.value.items[0], mx) and same(o.value.items[1], expk))]
+                if bad:
+                    chk.violation("R05.2", AFM, inst + ":path", "on the path [%s]: matrix = %s" % (pc_text(bad[0])[:160], show(bad[0].value.items[0], 200)),
+                                  "the array as given on every path (entries are weights: no rounding, casting or snapping)", ctx.where(AFM))
+                    continue
+                rets = rets[:1]
             if len(rets) != 1 or rets[0].unmodelled or not isinstance(rets[0].value, Tup):
                 chk.unknown("R05.2", "%s [%s]: %d return paths %s" % (AFM, inst, len(rets), rets and unmodelled_text(rets[0])))
                 continue
